@@ -370,6 +370,10 @@ func (u *upstream) updateClients(clients map[string]*client) {
 	u.clients.Store(clients)
 }
 
+// maxRedirections is the maximum number of times a request is sent again
+// because of MOVED or ASK responses, then the response is passed on.
+const maxRedirections = 16
+
 func (u *upstream) handleRedirection(req *simpleRequest, resp *RespValue) {
 	err := strings.Split(string(resp.Text), " ")
 	// the redirection error should be "MOVED|ASK <slot> <host:port>".
@@ -381,6 +385,16 @@ func (u *upstream) handleRedirection(req *simpleRequest, resp *RespValue) {
 	kind := strings.ToLower(err[0])
 	switch kind {
 	case MOVED, ASK:
+		// A stale route followed by a migrating slot takes two or three
+		// redirections. Backends which disagree about the owner of a slot (or
+		// a backend which redirects to itself) would keep the request going
+		// round forever, every round adding to what is kept for it.
+		if req.redirections >= maxRedirections {
+			u.triggerSlotsRefresh()
+			req.SetResponse(resp)
+			return
+		}
+		req.redirections++
 	default:
 		// The caller matches the prefix with unicode case folding, so it
 		// could be neither of them (e.g. "A\u017fK"), pass the error through.
